@@ -152,13 +152,13 @@ Lemma run_app pts fam h1 : forall s h2, run pts fam s (h1 ++ h2) = run pts fam (
 Proof. induction h1 as [|o r IH]; intros s h2; [reflexivity|]. cbn [app run]. apply IH. Qed.
 
 Lemma load_resets_machine fam h :
-  wf_family fam = true -> admissible all_on fam init h = true -> keyed_history fam h = true ->
+  wf_family fam = true -> admissible all_on fam init h = true ->
   cch (run all_on fam init (h ++ [OLoad])) = [] /\
   pv (run all_on fam init (h ++ [OLoad])) = S (pv (run all_on fam init h)).
 Proof.
-  intros Hwf Ha Hk. rewrite run_app. cbn [run step fst p_load all_on].
-  destruct (Inv_run fam Hwf h init (Inv_init fam) Ha Hk) as [Hs _].
-  unfold clear_modules. fold (all_slots fam). rewrite (drop_all_nil fam _ Hs). split; reflexivity.
+  intros Hwf Ha. rewrite run_app. cbn [run step fst p_load all_on].
+  destruct (Inv_run fam Hwf h init (Inv_init fam) Ha) as [_ [Hs _]].
+  unfold clear_modules. fold (all_slots fam). cbn [cch pv]. rewrite (drop_all_nil fam _ Hs). split; reflexivity.
 Qed.
 
 Definition ex_o : obj := [mkF 0 CParam 11; mkF 1 CBuffer 12; mkF 2 CPlain 13; mkF 3 CCache 14].
@@ -370,30 +370,29 @@ Qed.
 (* the whole object: state_dict -> fresh, pickle, deepcopy at ANY point of ANY admissible history *)
 Lemma persist_any_history tf nv h rel c :
   wf_tfam tf = true -> t_lazy tf = [] -> wf_family (t_c03 tf) = true ->
-  admissible all_on (t_c03 tf) init h = true -> keyed_history (t_c03 tf) h = true ->
-  c < f_ncfg (t_c03 tf) -> cfg_keyed (t_c03 tf) c = true ->
+  admissible all_on (t_c03 tf) init h = true -> c < f_ncfg (t_c03 tf) ->
   let p := prun tf nv (pinit tf) h in
   training (p_st p) = false ->
   pobserve tf rel (restore_sd tf p) c = pobserve tf rel p c /\
   pobserve tf rel (restore_pickle p) c = pobserve tf rel p c /\
   pobserve tf rel (restore_deepcopy tf p) c = pobserve tf rel p c.
 Proof.
-  intros Hwf Hl Hf Ha Hk Hc Hck p Htr.
+  intros Hwf Hl Hf Ha Hc p Htr.
   assert (Hst : p_st p = run all_on (t_c03 tf) init h) by (unfold p; rewrite p_st_prun; reflexivity).
-  assert (HI : Inv (t_c03 tf) (p_st p)) by (rewrite Hst; apply (Inv_run _ Hf h init (Inv_init _) Ha Hk)).
+  assert (HI : Inv (t_c03 tf) (p_st p)) by (rewrite Hst; apply (Inv_run _ Hf h init (Inv_init _) Ha)).
   split; [|split; [reflexivity|]].
   - unfold pobserve, restore_sd. cbn [p_tbl p_st]. f_equal.
     + apply (table_roundtrip_any_history tf nv h rel Hwf Hl).
     + rewrite Htr.
-      rewrite (predict_out_eval _ Hf _ c (Inv_fresh _ _ _ false) eq_refl Hc Hck).
-      rewrite (predict_out_eval _ Hf _ c HI Htr Hc Hck). reflexivity.
+      rewrite (predict_out_eval _ Hf _ c (Inv_fresh _ _ _ false) eq_refl Hc).
+      rewrite (predict_out_eval _ Hf _ c HI Htr Hc). reflexivity.
   - unfold pobserve, restore_deepcopy. cbn [p_tbl p_st]. f_equal.
     assert (HI' : Inv (t_c03 tf) (set_cache (p_st p) (drop (f_strat_slots (t_c03 tf)) (cch (p_st p))))).
-    { destruct HI as [H1 H2]. split; cbn [set_cache cch training pv dv].
+    { destruct HI as [H0 [H1 H2]]. split; [exact H0|]. split; cbn [set_cache cch training pv dv sck].
       - apply drop_Forall. exact H1.
       - intros Ht. apply drop_Forall. apply H2. exact Ht. }
-    rewrite (predict_out_eval _ Hf _ c HI' Htr Hc Hck).
-    rewrite (predict_out_eval _ Hf _ c HI Htr Hc Hck). reflexivity.
+    rewrite (predict_out_eval _ Hf _ c HI' Htr Hc).
+    rewrite (predict_out_eval _ Hf _ c HI Htr Hc). reflexivity.
 Qed.
 
 (* the hypothesis [t_lazy = []] cannot be dropped: with a lazily registered buffer (RFFKernel) a
